@@ -427,8 +427,8 @@ CLAIMS = {
                 "print / mutate its arguments exactly like the uninstrumented call.",
         "technique": "bounded differential contract check (the uninstrumented run is the oracle)",
         "note": "no unbounded claim: the statement quantifies over all programs and needs a semantics of CPython bytecode execution; the stack-machine lemma on the injected instruction sequences planned in DESIGN.md is not built. CHECKED coverage is covered by C01's second part only; Python 3.12 bytecode only; outcomes and lines are compared per source line, not per bytecode offset. Known findings (recorded per function): the tracer re-evaluates user comparison/truth operators (side effects "
-                "run again), consumes one-shot iterators in membership tests, and the seeding instrumentation of startswith/"
-                "endswith raises TypeError for tuple prefixes.",
+                "run again) and consumes one-shot iterators in membership tests (the TypeError of the seeding instrumentation for "
+                "startswith / endswith with a tuple argument was repaired in 6a95df4).",
     },
     "C02": {
         "category": "other",
@@ -437,7 +437,7 @@ CLAIMS = {
                 "lineids_to_linenos, import-time lines removed on both sides) under {LINE} and {BRANCH, LINE}; every executed line "
                 "must be a registered line and the reported set must equal the executed registered set.",
         "technique": "bounded differential contract check (sys.monitoring LINE events are the oracle)",
-        "note": "no unbounded claim: the statement quantifies over all programs and needs a semantics of CPython bytecode execution; the stack-machine lemma on the injected instruction sequences planned in DESIGN.md is not built. CHECKED coverage is covered by C01's second part only; Python 3.12 bytecode only; outcomes and lines are compared per source line, not per bytecode offset. Known findings: only consequences of the two C01 behaviour changes.",
+        "note": "no unbounded claim: the statement quantifies over all programs and needs a semantics of CPython bytecode execution; the stack-machine lemma on the injected instruction sequences planned in DESIGN.md is not built. CHECKED coverage is covered by C01's second part only; Python 3.12 bytecode only; outcomes and lines are compared per source line, not per bytecode offset. Known finding: a consequence of the C01 one-shot-iterator finding (the second one went with the repair 6a95df4).",
     },
     "C03": {
         "category": "other",
